@@ -157,7 +157,7 @@ func checkFlagVariants(prop string, seg segment.Segment, want *spec.Obs) *Violat
 				if err != nil {
 					return err
 				}
-				for _, flags := range [][3]bool{{false, false, false}, {true, true, false}} {
+				for _, flags := range [][3]bool{{false, false, false}, {true, true, false}, {false, false, true}, {true, false, true}, {false, true, false}, {true, false, false}, {false, true, true}} {
 					itr := pl.Iterator(flags[0], flags[1], flags[2], nil)
 					i := 0
 					for {
@@ -172,13 +172,23 @@ func checkFlagVariants(prop string, seg segment.Segment, want *spec.Obs) *Violat
 							v = violation(prop, "flags/doc-mismatch", "field %q term %q flags %v: hit %d is doc %d, model %v", f, term, flags, i, p.Number(), hits)
 							return nil
 						}
-						if flags[0] && (p.Frequency() != hits[i].Freq || (hits[i].Freq > 0 && p.Norm() != hits[i].Norm)) {
+						if flags[0] && flags[1] && (p.Frequency() != hits[i].Freq || (hits[i].Freq > 0 && p.Norm() != hits[i].Norm)) {
 							v = violation(prop, "flags/freqnorm-mismatch", "field %q term %q flags %v doc %d: freq %d norm %v, model freq %d norm %v", f, term, flags, p.Number(), p.Frequency(), p.Norm(), hits[i].Freq, hits[i].Norm)
 							return nil
 						}
-						if len(p.Locations()) != 0 {
+						if !flags[2] && len(p.Locations()) != 0 {
 							v = violation(prop, "flags/unrequested-locations", "field %q term %q flags %v doc %d returned %d locations", f, term, flags, p.Number(), len(p.Locations()))
 							return nil
+						}
+						if flags[2] {
+							// locations requested (with or without frequency / norm): exactly the input's
+							got := drive.CopyHit(p)
+							wantLocs := got // frequency and norm were not asked for: only the locations are compared
+							wantLocs.Doc, wantLocs.Locs = hits[i].Doc, hits[i].Locs
+							if d := spec.DiffHits([]spec.Hit{wantLocs}, []spec.Hit{got}); d != "" {
+								v = violation(prop, "flags/locations-mismatch", "field %q term %q flags %v doc %d: %s", f, term, flags, p.Number(), d)
+								return nil
+							}
 						}
 						i++
 					}
